@@ -49,6 +49,11 @@ theorem declArrInit_out (c : Bool) (ty : Ty) (x : String) (dims : List Nat) (vs 
   · rfl
   · exact bind_out_of (liftRes_out _) (fun _ => declareLocal_out _ _) s
 
+theorem declStructInitVar_out (c : Bool) (sd : StructDef) (x : String) (vs : List Int) (s : St) :
+    (declStructInitVar c sd x vs s).2.out = s.out := by
+  unfold declStructInitVar
+  exact bind_out_of (liftRes_out _) (fun _ => declareLocal_out _ _) s
+
 /-! ## (A) output prefix -/
 
 def OutPrefix (o : List String) (s : St) : Prop := ∃ suf, s.out = o ++ suf
@@ -66,6 +71,7 @@ theorem primOK_outPrefix (o : List String) : PrimOK (OutPrefix o) where
   declArrInit := fun c ty x dims vs s hs => outPrefix_of_out_eq (declArrInit_out c ty x dims vs s) hs
   declDefault := fun _ _ _ _ _ hs => hs
   declStructVar := fun _ _ _ hs => hs
+  declStructInitVar := fun c sd x vs s hs => outPrefix_of_out_eq (declStructInitVar_out c sd x vs s) hs
   enterCall := by
     intro α fn args m hm s hs
     unfold enterCall
@@ -359,6 +365,30 @@ theorem structVal_ok (sd : StructDef) : ValOK (structVal sd) := by
   obtain ⟨fd, _, rfl⟩ := hkc
   exact defaultCell_ok _ _ _
 
+theorem initFields_ok (c : Bool) (fds : List FieldDef) (vs : List Int) (fs : List (String × Cell))
+    (h : initFields c fds vs = .ok fs) : ∀ kc ∈ fs, CellOK kc.2 := by
+  induction fds generalizing vs fs with
+  | nil => simp [initFields] at h; subst h; simp
+  | cons fd fds ih =>
+    unfold initFields at h
+    split at h
+    · split at h <;> simp only [Res.ok.injEq, reduceCtorEq] at h
+      rename_i v' r h1 h2
+      subst h
+      intro kc hkc
+      simp only [List.mem_cons] at hkc
+      rcases hkc with rfl | hkc
+      · exact storeChecked_inRange _ _ _ h1
+      · exact ih _ r h2 kc hkc
+    · split at h <;> simp only [Res.ok.injEq, reduceCtorEq] at h
+      rename_i r h2
+      subst h
+      intro kc hkc
+      simp only [List.mem_cons] at hkc
+      rcases hkc with rfl | hkc
+      · exact defaultCell_ok _ _ _
+      · exact ih _ r h2 kc hkc
+
 theorem primOK_range : PrimOK RangeInv where
   emit := fun _ _ hs => hs
   writeRef := writeRef_range
@@ -381,6 +411,12 @@ theorem primOK_range : PrimOK RangeInv where
       exact declareLocal_range _ _ (storeAllR_inRange _ _ _ hvs')
   declDefault := fun c ty x dims => declareLocal_range _ _ (defaultCell_ok ty dims c)
   declStructVar := fun sd x => declareLocal_range _ _ (structVal_ok sd)
+  declStructInitVar := by
+    intro c sd x vs
+    unfold declStructInitVar
+    apply liftRes_bind_range
+    intro fs hfs
+    exact declareLocal_range _ _ (initFields_ok c _ _ fs hfs)
   enterCall := by
     intro α fn args m hm
     unfold enterCall
